@@ -215,7 +215,8 @@ def _rel(t, T):
     elif rel == "energy":
         from periodictable import nsf
         E = float(nsf.neutron_energy(lam))
-        b = call(g0, energy=E)
+        # ("If energy is specified then wavelength is ignored")
+        b = call(g0, energy=E, wavelength=lam * 3.7) if t.get("both") else call(g0, energy=E)
     elif rel == "vector":
         ws = t["vector"]
         i = t["index"]
